@@ -33,7 +33,7 @@ PROFILE = grammar.profile(
     lro_variants=True, p_lro=1.0, p_raw_op=0.25, p_list=0.15, p_get=0.4, p_create=0.1, p_update=0.1, p_delete=0.3,
     p_custom=0.1, p_sstream=0.0, p_cstream=0.0, p_bidi=0.0, p_service_config=0.6, p_second_file=0.6,
     resources=(1, 3), transports=["grpc", "grpc+rest", "grpc+rest"], p_google_api_ns=0.15,
-    common_file_names=["resources", "resources", "common", "operation"])
+    common_file_names=["resources", "resources", "common", "operation", "<noun>", "<noun>"], p_signature=0.9)
 
 BUDGET = {
     "quick": {"worlds": 120, "runs": 100, "wall_cap": 300, "world_wall": 90},
